@@ -669,6 +669,11 @@ func wholeInput(p *Path, data *Val, crc32 bool) (bool, string) {
 					return true, ""
 				}
 			}
+			if ok, why := crcChunkWalk(p, r, bb); ok {
+				return true, ""
+			} else if why != "" {
+				return false, why
+			}
 			return false, "result is " + r.Pretty() + ", not hash/crc32's IEEE checksum of data.Bytes()"
 		}
 		return false, "no result"
@@ -830,4 +835,64 @@ func ssaPkgOf(f *ssa.Function) *ssa.Package {
 		return ssaPkgOf(p)
 	}
 	return nil
+}
+
+// crcChunkWalk: the result is a running hash/crc32.Update (IEEE table, starting from 0) over data.Bytes() taken front
+// to back in chunks: `for rest := data.Bytes(); len(rest) > 0; rest = rest[n:] { crc = crc32.Update(crc, IEEETable,
+// rest[:n]) }` with 0 < n <= len(rest) on every iteration. By Update's streaming law that is the IEEE checksum of the
+// whole slice. why is non-empty when the shape is this one but a condition fails.
+func crcChunkWalk(p *Path, r, bb *Val) (bool, string) {
+	if r.Op != "loopout" || len(r.Args) != 1 || !isZero(r.Args[0]) {
+		return false, ""
+	}
+	var loop *Event
+	for _, e := range p.Events {
+		if e.Kind == EvRep && e.LoopID == r.ID {
+			loop = e
+		}
+	}
+	if loop == nil || len(loop.Iter) == 0 {
+		return false, ""
+	}
+	if loop.Partial {
+		return false, "the chunk loop can be left early"
+	}
+	for _, arm := range loop.Iter {
+		next := stripCT(arm.Next[r.Name])
+		if next == nil || next.Op != "call" || next.Name != "hash/crc32.Update" || len(next.Args) != 3 {
+			return false, ""
+		}
+		acc := stripCT(next.Args[0])
+		if acc.Op != "loopvar" || acc.ID != loop.LoopID || acc.Name != r.Name {
+			return false, "a chunk is not chained onto the running value"
+		}
+		if !next.Args[1].Contains(func(y *Val) bool { return y.Op == "global" && strings.Contains(y.Name, "IEEETable") }) {
+			return false, "the running CRC does not use the IEEE table"
+		}
+		chunk := stripCT(next.Args[2])
+		if chunk.Op != "slice" || len(chunk.Args) < 3 || !(chunk.Args[1] == nil || isZero(chunk.Args[1])) || chunk.Args[2] == nil {
+			return false, "the chunk is not a prefix rest[:n] of what is left"
+		}
+		rest := stripCT(chunk.Args[0])
+		if rest.Op != "loopvar" || rest.ID != loop.LoopID || len(rest.Args) != 1 || stripCT(rest.Args[0]).Key() != bb.Key() {
+			return false, "the chunks are not taken from data.Bytes()"
+		}
+		n := chunk.Args[2]
+		rn := stripCT(arm.Next[rest.Name])
+		if rn == nil || rn.Op != "slice" || stripCT(rn.Args[0]).Key() != rest.Key() || rn.Args[1] == nil || rn.Args[2] != nil || !affEq(rn.Args[1], n) {
+			return false, "what is left after a chunk is not rest[n:] for the chunk's own n"
+		}
+		L := mkLen(rest)
+		okN := false
+		if affEq(n, L) && condHolds(arm.Conds, L, ">", mkInt(0)) {
+			okN = true
+		}
+		if k, isC := n.Int64(); isC && k > 0 && condHolds(arm.Conds, L, ">=", n) {
+			okN = true
+		}
+		if !okN {
+			return false, "a chunk length is not shown to satisfy 0 < n <= len(rest)"
+		}
+	}
+	return true, ""
 }
